@@ -67,6 +67,9 @@ def _plan(tier, seed):
     # interrupted calls, deterministic: EINTR at every position of the operation's own call sequence (sysmon)
     for prof, fs in _eintr_plan(tier, seed):
         jobs.append((prof, fs, "eintr", seed * 1000 + 996, 12 if quick else 40, False))
+    # multi-call copies: big copies under a signal storm, copy_file_range results read from the sysmon log
+    for fs in ("disk", "tmpfs"):
+        jobs.append(("debug", fs, "sigcopy", seed * 1000 + 997, 6 if quick else 30, False))
     if not quick:
         for fs in ("disk", "tmpfs"):
             jobs.append(("asan", fs, "readdir", seed * 1000 + 601, 100, False))
@@ -135,6 +138,20 @@ def _eintr_job(binary, base, fs, seed, workdir, tag, max_positions):
     return out
 
 
+def _sigcopy_job(binary, base, fs, seed, budget, workdir, tag):
+    """big copies under a signal storm, watched by sysmon: how many copy_file_range calls came back partial"""
+    log = os.path.join(workdir, "sigcopy-%s.log" % tag)
+    argv = [binary, "sigcopy", str(seed), str(budget), base, fs]
+    r = vlib.run_one(syslog.sysmon_cmd(log, argv, scope_markers=True, timeout_s=300), timeout=400)
+    calls = partial = 0
+    for e in syslog.parse(log):
+        if e.k == "S" and e.nr == syslog.NR["copy_file_range"]:
+            calls += 1
+            if 0 < e.ret < e.args[4]:
+                partial += 1
+    return dict(run=r, calls=calls, partial=partial)
+
+
 def _label(j):
     prof, fs, mode, seed, budget, chroot = j
     return "%s %s %s seed=%d budget=%d%s" % (prof, fs, mode, seed, budget, " chroot" if chroot else "")
@@ -186,9 +203,19 @@ def run(ck, replay=None):
         jobs, meta = [], []
         pool = concurrent.futures.ThreadPoolExecutor(max_workers=4)
         eintr = []
+        sigcopy = []
         for j in plan:
             prof, fs, mode, seed, budget, chroot = j
             if prof not in bins or fs not in bases:
+                continue
+            if mode == "sigcopy":
+                try:
+                    syslog.sysmon_bin()
+                except vlib.BuildError as ex:
+                    ck.note_inconclusive("sysmon build failed: %s" % str(ex)[-300:])
+                    continue
+                sigcopy.append((j, pool.submit(_sigcopy_job, bins[prof] + "/h_fs", bases[fs], fs, seed, budget,
+                                               bases["disk"], "%s-%s" % (prof, fs))))
                 continue
             if mode == "eintr":
                 # two phases under sysmon; runs beside the other jobs
@@ -253,6 +280,13 @@ def run(ck, replay=None):
                 ck.note_inconclusive("%s: only %d of %d planned EINTR injections fired" % (label, r["fired"], r["planned"]))
             ck.note_distinct("run/%s/%s/eintr" % (j[0], fstypes.get(j[1], j[1])))
             ck.count("processes_completed", 2)
+        for j, fut in sigcopy:
+            r = fut.result()
+            if ck.consume_result(r["run"], _label(j)):
+                ck.count("copy_file_range_calls_observed_under_storm", r["calls"])
+                ck.count("copy_calls_that_returned_partial", r["partial"])
+                ck.note_distinct("run/%s/%s/sigcopy" % (j[0], fstypes.get(j[1], j[1])))
+                ck.count("processes_completed")
         pool.shutdown()
     finally:
         for b in bases.values():
@@ -272,6 +306,7 @@ def run(ck, replay=None):
     ck.assume("operations whose path resolves to a fifo/socket are not issued (open would block); source==destination copies are not issued")
     ck.assume("short writes are provoked with a lowered soft RLIMIT_FSIZE (SIGXFSZ ignored) around the tiny-std call only; short reads with a chunk-fed fifo and /proc files; other causes of short transfers (signals, full disk, quotas) are not produced")
     ck.assume("interruptions: (a) SIGUSR1 storms (handler without SA_RESTART) from a helper thread only while the tiny-std call runs; only calls that sleep (fifo open/read/write, copy_file_range of MiBs) are actually interrupted, the counters sig/<op>/signalled say how often a signal arrived; (b) under sysmon the k-th read/write/openat/getdents64/copy_file_range/unlinkat/mkdirat of the operation's dry-run sequence is suppressed and returns -EINTR (<=12 positions per call kind: all, or first/last/seeded middle); an Err(EINTR) surfaced by tiny-std is counted, not judged")
+    ck.assume("an Err carrying EFAULT is a violation in every mode (all arguments are live objects of the harness); multi-call copies are produced deterministically with RLIMIT_FSIZE below the source size (first copy_file_range partial, destination left with exactly `limit` bytes) and by signal storms over 6-16 MiB copies watched by sysmon (counter copy_calls_that_returned_partial)")
     ck.assume("paths of 4096 bytes and more are only checked for 'no Ok, no panic'")
     return ("matrices: create_dir_all over (1..12 components) x (every existing-prefix/missing-suffix split) x 6 separator shapes x rel/abs "
             "(+chroot for '/x') and non-directory leaf/ancestor kinds; path lengths stepping over 512 and 4096 bytes for every operation; "
